@@ -61,6 +61,8 @@ QUICK = [
     fam('keys', 2, 1, ['nat'], bin=['pair', 'or'], un=['set'], maps=['map'], fields=['a']),
     # %default (and another name) on inner nodes and leaves of a union: how the whole parameter is addressed depends on it
     fam('sumdef', 2, 2, ['int', 'unit'], bin=['or'], fields=['default', 'f'], ep=1),
+    # the records again, every component without a field annotation carrying the empty annotation %: same layout, same names, same objects
+    dict(fam('recbare', 2, 2, ['int'], bin=['pair'], fields=['a', 'int_1'], types=['a']), bare=True),
     dict(fam('deep', 0, 0, ['nat']), deep=True),
 ]
 THOROUGH = [      # sizes (types): 9k 11k 16k 18k 4k 14k 3k 7k 2k 1k
@@ -84,13 +86,16 @@ def tup(x):
     return tuple(tup(y) for y in x) if isinstance(x, (list, tuple)) else x
 
 
-def ann_json(t):
+BARE = [False]      # family switch: components of pair / or without a field annotation carry the empty one (%), which names nothing
+
+
+def ann_json(t, parent=None):
     e = {'prim': t[0]}
-    annots = ([':' + t[2]] if t[2] else []) + (['%' + t[1]] if t[1] else [])
+    annots = ([':' + t[2]] if t[2] else []) + (['%' + t[1]] if t[1] else ['%'] if (BARE[0] and parent in ('pair', 'or')) else [])
     if annots:
         e['annots'] = annots
     if len(t) > 3:
-        e['args'] = [ann_json(x) for x in t[3:]]
+        e['args'] = [ann_json(x, t[0]) for x in t[3:]]
     return e
 
 
@@ -535,10 +540,11 @@ def run(ctx):
         bytype = {}
         for v in outs:
             bytype.setdefault(v[1], []).append(v)
+        BARE[0] = bool(f.get('bare'))
         for T in sorted(bytype, key=repr):
-            if T in seen:
+            if (T, BARE[0]) in seen:
                 continue       # the same type reached through two families
-            seen.add(T)
+            seen.add((T, BARE[0]))
             ntypes += 1
             try:
                 tc = TypeCtx(T)
@@ -548,7 +554,7 @@ def run(ctx):
             with_ep = stable_pick(T, f['ep'])
             good = True
             for _, _, v, convok, nested, py, back in bytype[T]:
-                c = Case(T, v, convok, nested, py, back)
+                c = Case(T, v, convok and not BARE[0], nested, py, back)      # with empty annotations around, how pytezos names the components is not compared, only the round trip
                 classes.add((convok, nested, py[0]))
                 good = check_case(ctx, tc, c, with_ep) and good
                 ctx.replayed += 1
@@ -556,6 +562,7 @@ def run(ctx):
             if good and len(T) > 3 and (T[1] or T[2] or any(x[1] or x[2] for x in T[3:])):
                 c = bytype[T][-1]
                 ctx.sample({'type': michelson(T), 'value': vjson(T, c[2]), 'object': repr(pyobj(c[5])) if c[3] else None}, limit=6)
+    BARE[0] = False
     ctx.extra['types'] = ntypes
     # vacuity: every class of case the invariants and comparisons speak about was actually enumerated
     need = [(False, False, '#undefined'), (True, True, 'pynone'), (True, False, 'pydict'), (True, False, 'pytuple'), (True, False, 'pyname'),
